@@ -294,7 +294,27 @@ fn parse_mode(kind: &str, s: &str) -> String {
     }
 }
 
-pub fn main(_args: &[String]) -> i32 {
+/// "fmt": print the exact N-Triples / N-Quads text of one fixed triple / named-graph quad (format precondition of the
+/// serializer harnesses of C15, which compare bytes).
+fn fmt_mode() -> i32 {
+    let t = [iri("a"), iri("b"), iri("c")];
+    let g: G = vec![t.clone()];
+    let mut ser = NtSerializer::new_stringifier();
+    ser.serialize_graph(&g).unwrap();
+    print!("NT:{}", ser.to_string().replace('\n', "\\n"));
+    println!();
+    let d: D = vec![(t.clone(), Some(iri("b"))), (t, None)];
+    let mut ser = NqSerializer::new_stringifier();
+    ser.serialize_dataset(&d).unwrap();
+    print!("NQ:{}", ser.to_string().replace('\n', "\\n"));
+    println!();
+    0
+}
+
+pub fn main(args: &[String]) -> i32 {
+    if args.first().map(String::as_str) == Some("fmt") {
+        return fmt_mode();
+    }
     panic::set_hook(Box::new(|_| {}));
     for line in io::stdin().lock().lines() {
         let line = line.unwrap();
